@@ -133,9 +133,13 @@ def rule_MP3(rep, prog, g):
             res = paths.walk(fn, s, lambda i: i.op == "call" and i.callee == "_dispatch_group_wake")
             if any(r[0] == "exit" for r in res) or (gu.old.k0 & 0xfffffffc) != 0xfffffffc:
                 okg = False
+            # ... and by nothing more: the generation (high 32 bits) counts completed cycles and is non-zero for every group that was used before
+            if gu.old.k0 >> 32:
+                okg = False
         rep.require(rid, okg, cxs[0].loc, fn.name, "notify-giveup:%s" % fn.name,
-                    "_dispatch_group_notify (in %s): the give-up of the HAS_NOTIFS CAS must be guarded by count == 0 and lead to _dispatch_group_wake "
-                    "(the group is already empty: the notification must fire now)" % fn.name, sample={"in": fn.name, "giveups": len(gus)})
+                    "_dispatch_group_notify (in %s): the give-up of the HAS_NOTIFS CAS must be guarded by count == 0 - the low 32 bits only, not the "
+                    "generation above them - and lead to _dispatch_group_wake (the group is already empty: the notification must fire now; a group or block "
+                    "object that completed once has a non-zero generation forever)" % fn.name, sample={"in": fn.name, "giveups": len(gus)})
     if n == 0:
         rep.unknown(rid, "no expansion of _dispatch_group_notify found")
 
@@ -220,6 +224,28 @@ def rule_MP4(rep, prog, g):
                     % ("gives up into the slow path" if isinstance(t, trans.GiveUp) else "commits HAS_WAITERS"), sample={"guard": t.old.notes[-3:]})
     if nslow < 2:
         rep.unknown(rid, "expected the HAS_WAITERS commit and the already-set give-up in dispatch_group_wait, found %d" % nslow)
+    # the generation handed to the slow path is the generation of the state this call observed (on every way into the slow path)
+    cxs = [i for i in fn.all_insts() if i.op == "cmpxchg" and (prog.fields(i) & GF)]
+    for c in calls_named(fn, "_dispatch_group_wait_slow"):
+        v = fn.inst(c.ops[1])
+        while v is not None and v.op in ("trunc", "zext"):
+            v = fn.inst(v.ops[0])
+        okg = v is not None and v.op == "lshr" and v.ops[1][0] == "c" and v.ops[1][1] == 32 and bool(cxs)
+        if okg:
+            E = tuple(cxs[0].ops[1][:2])
+            src = fn.inst(v.ops[0])
+            incoming = [x[0] for x in src.ops] if (src is not None and src.op == "phi") else [v.ops[0]]
+            for o in incoming:
+                oi = fn.inst(o)
+                if tuple(o[:2]) == E:
+                    continue
+                if oi is not None and oi.op == "or" and tuple(oi.ops[0][:2]) == E and oi.ops[1][0] == "c" and not (oi.ops[1][1] >> 32):
+                    continue
+                okg = False
+        rep.require(rid, okg, c.loc, fn.name, "wait-slow-gen-not-from-observed-state",
+                    "dispatch_group_wait passes _dispatch_group_wait_slow a generation that on some path is not taken from the dg_state value it just observed "
+                    "(e.g. a stale / zero-initialised new_state on the 'HAS_WAITERS already set' give-up): on a reused group the slow path sees a generation "
+                    "mismatch at once and returns 0 while work is still outstanding", sample={"call": c.loc})
 
 
 def rule_OD5(rep, prog, g):
